@@ -93,6 +93,7 @@ def mk_phi(items):
 
 
 UNKNOWN = E("unknown")
+DEFAULT = E("const", (), ("default", ""))
 
 # ---------------------------------------------------------------------------------------
 # Library model (DESIGN Appendix B).  Callee paths are matched after strip_generics().
@@ -127,11 +128,9 @@ IDENT_ARG = {
     "std::option::Option::as_ref": 0,
     "std::option::Option::as_deref": 0,
     "std::option::Option::unwrap": 0,
-    "std::option::Option::unwrap_or_default": 0,
     "std::option::Option::ok_or_else": 0,
     "std::result::Result::unwrap": 0,
     "std::result::Result::map_err": 0,
-    "std::result::Result::unwrap_or_default": 0,
     "std::iter::IntoIterator::into_iter": 0,
     "core::slice::iter": 0,
     "core::slice::iter_mut": 0,
